@@ -162,9 +162,13 @@ func GaloisElementsForPack(params ParameterProvider, logGap int) (galEls []uint6
 		panic(fmt.Errorf("cannot GaloisElementsForPack: logGap > logN || logGap < 0"))
 	}
 
+	// Pack merges in the steps i = LogN-logGap, ..., LogN-1; step i > 0 applies the automorphism
+	// X -> X^{5^{2^{i-1}}}, step 0 the automorphism X -> X^{-1}.
 	galEls = make([]uint64, 0, logGap)
-	for i := 0; i < logGap; i++ {
-		galEls = append(galEls, p.GaloisElement(1<<i))
+	for i := p.LogN() - logGap; i < p.LogN(); i++ {
+		if i > 0 {
+			galEls = append(galEls, p.GaloisElement(1<<(i-1)))
+		}
 	}
 
 	switch p.RingType() {
